@@ -19,7 +19,17 @@ func main() {
 	repo := flag.String("repo", "/repo", "repository root")
 	verif := flag.String("verif", "/verif", "verif root (evidence, known findings)")
 	list := flag.Bool("list", false, "list implemented properties")
+	dump := flag.String("dump", "", "debug: chanops|locks|entry")
 	flag.Parse()
+	if *dump != "" {
+		p, err := core.Load(*repo)
+		if err != nil {
+			fmt.Println("ERROR", err)
+			os.Exit(2)
+		}
+		core.Dump(p, *dump)
+		return
+	}
 	if *list {
 		for _, id := range rules.IDs() {
 			fmt.Println(id)
